@@ -125,7 +125,7 @@ def main():
         run(chk, 1500, 3)
     else:
         run(chk, 150, 2)
-        if chk.broken() and not chk.spec_failures:
+        if (chk.broken() or chk.anchor_changed) and not chk.spec_failures:
             chk.notes.append("escalated after a broken proof/correspondence")
             run(chk, 800, 3)
     chk.finish()
